@@ -104,8 +104,8 @@ func CheckC05(sc *Scenario, res *Result) *Violation {
 				active = nil
 			case "final":
 				for mod, c := range e.Counts {
-					if c[0] != 0 || c[1] != 0 || c[2] != 0 || c[3] != 0 {
-						return violf("C05-4-counters", "final work counters of %s are workers=%d tasks=%d microtasks=%d ctrl=%d, want all zero", mod, c[0], c[1], c[2], c[3])
+					if c[0] != 0 || c[1] != 0 || c[2] != 0 {
+						return violf("C05-4-counters", "final work counters of %s are workers=%d tasks=%d microtasks=%d, want all zero", mod, c[0], c[1], c[2])
 					}
 				}
 			}
